@@ -1060,6 +1060,15 @@ where
             }
         };
 
+        // `numkeys` cannot exceed the number of arguments: the keys are looked up
+        // in `3..3 + numkeys`, which must neither overflow nor be walked beyond the command.
+        let arg_len = cmd_ctx.get_cmd().get_command_len().unwrap_or(0);
+        if key_num > arg_len {
+            let err_msg = b"ERR: `numkeys` is greater than the number of arguments";
+            cmd_ctx.set_resp_result(Ok(Resp::Error(err_msg.to_vec())));
+            return CmdReplyFuture::Left(reply_receiver);
+        }
+
         if key_num == 1 {
             self.handle_single_key_data_cmd(cmd_ctx);
             return CmdReplyFuture::Left(reply_receiver);
